@@ -240,7 +240,7 @@ func Run(r *ev.Run) {
 	if thorough {
 		limit = 16
 	}
-	r.Rule("for every type of C04's domain without standard-library marshaler types and every enumerated value: the valid encoding and EVERY single-point mutation of it (each node swapped for each of 12 values of other JSON types; each integer pushed to every sized-integer bound and bound+-1 within the 64-bit range; each key dropped; a fresh key and a case variant of each key added; arrays shortened, lengthened, null appended), written as text with integers in plain decimal; if the inferred schema validates the document, json.Decoder with DisallowUnknownFields must decode it into T; and a null swapped into a position whose Go type can never be nil (bool, number, string, struct, array) must be rejected by the schema. Non-trivial = the document validated (the implication's premise holds); documents are de-duplicated per type")
+	r.Rule("for every type of C04's domain without standard-library marshaler types and every enumerated value: the valid encoding and EVERY single-point mutation of it (each node swapped for each of 12 values of other JSON types; each integer pushed to every sized-integer bound and bound+-1 within the 64-bit range; each key dropped; a fresh key and a case variant of each key added; arrays shortened, lengthened, null appended), written as text with integers in plain decimal; if the inferred schema validates the document, json.Decoder with DisallowUnknownFields must decode it into T; and a null swapped into a position whose Go type can never be nil (bool, number, string, struct, array) must be rejected by the schema, as must a document that lacks a field carrying neither omitempty nor omitzero and an array of the wrong length for a Go array. Non-trivial = the document validated (the implication's premise holds); documents are de-duplicated per type")
 	r.Assume("encoding/json strict decoding is the oracle", "an integer outside the 64-bit range of a 64-bit target's signedness is outside the domain; floats out of float32 range are not generated")
 	r.Set("types", len(ts))
 	par.For(len(ts), r.Expired, func(i int, j par.Journal) {
@@ -294,6 +294,36 @@ func Run(r *ev.Run) {
 			// "null in a non-nullable position ... rejected": encoding/json itself ignores null
 			// everywhere, so this clause needs its own oracle - a position whose Go type can
 			// never be nil (bool, number, string, struct, array)
+			// likewise for "a missing non-optional field" and "wrong array length": encoding/json
+			// fills in zero values / ignores surplus elements, so these clauses get their own oracles
+			if strings.HasPrefix(what, "drop ") {
+				path := strings.TrimPrefix(what, "drop ")
+				if i := strings.LastIndex(path, "/"); i >= 0 {
+					if pt := typeAt(t.Type, path[:i]); pt != nil {
+						for pt.Kind() == reflect.Pointer {
+							pt = pt.Elem()
+						}
+						if pt.Kind() == reflect.Struct {
+							for _, f := range gen.JSONFields(pt) {
+								if f.Name == path[i+1:] && !f.OmitEmpty && !f.OmitZero {
+									r.Fail(dkey, map[string]any{"class": "document without a non-optional field accepted", "mutation": what, "struct": pt.String(), "field": f.Name})
+									return
+								}
+							}
+						}
+					}
+				}
+			}
+			if strings.HasPrefix(what, "shorten ") || strings.HasPrefix(what, "lengthen ") || strings.HasPrefix(what, "append null ") {
+				path := what[strings.Index(what, " ")+1:]
+				if strings.HasPrefix(what, "append null ") {
+					path = strings.TrimPrefix(what, "append null ")
+				}
+				if pt := typeAt(t.Type, path); pt != nil && pt.Kind() == reflect.Array {
+					r.Fail(dkey, map[string]any{"class": "array of the wrong length accepted for a Go array", "mutation": what, "go_type_at_position": pt.String()})
+					return
+				}
+			}
 			if strings.HasPrefix(what, "swap ") && strings.HasSuffix(what, " -> null") {
 				path := strings.TrimSuffix(strings.TrimPrefix(what, "swap "), " -> null")
 				if pt := typeAt(t.Type, path); pt != nil && neverNil(pt) {
